@@ -11,6 +11,7 @@ CONSTANTS
   Tmo = {0}
   Horizon = 2
   AllowFaults = TRUE
+  AllowCancel = FALSE
   AbstractTime = FALSE
   LeakSearchIdOnDone = FALSE
   AbandonKeepsTargetId = FALSE
